@@ -19,6 +19,56 @@ def scripts(tier):
             yield (d, t, list(combo))
 
 
+def mapping_vs_cli(tier):
+    """The expression's own `scope` mapping is its outermost let layer: removing / assigning a name there through the mapping API
+    must give the text that the selector of that depth gives through the CLI (only the emptied wrapper goes, the other layers and
+    the body keep their text) - for documents with at least two layers."""
+    from bounded import readers as RD
+    from nix_manipulator import parse
+    from nix_manipulator.cli.manipulations import _resolve_target_set, remove_value, set_value
+
+    bad = []
+    n = 0
+    for d, t in E.documents(tier):
+        try:
+            err, tree, layers = RD.read_document(t)
+        except Exception:
+            continue
+        if err or tree is None or len(layers) < 2:
+            continue
+        sel = "@" * len(layers)
+        for name, val in layers[0].items():
+            if not isinstance(val, str) or "." in name or '"' in name:
+                continue
+            for op in ("rm", "set"):
+                n += 1
+                try:
+                    cli = remove_value(parse(t), sel + name) if op == "rm" else set_value(parse(t), sel + name, "5")
+                except Exception as e:
+                    cli = f"exc:{type(e).__name__}"
+                try:
+                    src = parse(t)
+                    target = _resolve_target_set(src)
+                    if op == "rm":
+                        del target.scope[name]
+                    else:
+                        target.scope[name] = 5
+                    api = src.rebuild()
+                except Exception as e:
+                    api = f"exc:{type(e).__name__}"
+                if cli != api:
+                    w, c = d.split("/")
+                    bad.append(dict(check="scope-mapping-vs-selector", signature=f"{op}-through-the-scope-mapping-differs-from-{op}-{sel}name|wrapper={w}",
+                                    what=f"C09 {op} of `{name}` in the outermost of {len(layers)} layers: scope mapping gives another text than `{op} {sel}{name}` on {d}",
+                                    has_input=True, inputs={"text": t, "name": name, "op": op, "selector": sel, "mapping": True},
+                                    failing_input={"inputs": {"text": t, "op": op, "name": name}, "observed": f"selector gives {cli!r}, scope mapping gives {api!r}", "origin": "bounded enumeration"}))
+    seen = {}
+    for b in bad:
+        seen.setdefault(b["signature"], b)
+    return dict(evaluations=n, distinct_nontrivial=n, rule="rm / set of every plain name of the outermost layer through expr.scope vs through the selector, on every document with >= 2 layers",
+                samples=[], exhaustive=True, violations=list(seen.values()), seconds=0.0)
+
+
 def run(tier, seed):
     single = E.run_edits("C05", tier, seed, case_filter=lambda c: c[3].startswith("@"))
     seq = E.run_scripts("C05", list(scripts(tier)),
@@ -26,13 +76,21 @@ def run(tier, seed):
                         "creation and pruning) on every wrapper x 4 contents; after every step let layers and attribute tree read from the "
                         "output CST must equal the layer model" % (2 if tier == "quick" else 3))
     text = E.run_edits("C09", tier, seed, case_filter=lambda c: c[3].startswith("@"))
-    r = E.merge(single, seq, text)
+    r = E.merge(single, seq, text, mapping_vs_cli(tier))
     for v in r["violations"]:
         v["what"] = v["what"].replace("C05", "C09", 1)
     return r
 
 
 def replay(v):
+    if v["inputs"].get("mapping"):
+        r = mapping_vs_cli("thorough")
+        hit = [x for x in r["violations"] if x["signature"] == v.get("signature")]
+        print(hit[:1] or "not reproduced")
+        if hit:
+            print("VIOLATION property=C09 replay=<given>")
+            return 1
+        return 0
     if "script" in v["inputs"]:
         return E.replay_script("C05", v)
     if "text outside" in v.get("what", "") or "changed-text" in v.get("signature", ""):
